@@ -574,6 +574,13 @@ def rule_predicate_purity(ctx):
     r(ctx)
 
 
+def rule_char_eq_exact(ctx):
+    """All places that compare a haystack character with a needle character see the same result only if `==` between the
+    character types is exact code point equality (shared with C01.char-eq-exact)."""
+    from props.c01 import rule_char_eq_exact as r
+    r(ctx)
+
+
 def rules(ctx):
     ctx.run_rule("C16.norm-route", rule_norm_route)
     ctx.run_rule("C16.predicate-purity", rule_predicate_purity)
@@ -583,3 +590,4 @@ def rules(ctx):
     ctx.run_rule("C16.oracles", rule_oracles)
     ctx.run_rule("C16.siblings", rule_siblings)
     ctx.run_rule("C16.ascii", rule_ascii)
+    ctx.run_rule("C16.char-eq-exact", rule_char_eq_exact)
